@@ -6,7 +6,7 @@ from __future__ import annotations
 import inspect, time
 import torch
 from ..common import Rng, Report, budget, call_real, flat_out, dec_out, enc_args, run_driver, outcomes_agree
-from ..registry import SPECS, Spec, fresh_cfg, public_cfg, cat_batches, new_metric
+from ..registry import SPECS, Spec, fresh_cfg, public_cfg, cat_batches, new_metric, finding_class
 from ..engine import observe, same_obs, obs_json, fed, gen_stream
 import torcheval.metrics as M
 
@@ -54,7 +54,7 @@ def class_vs_functional(rep, spec: Spec, cfg: dict, bs):
             masked_c.append(a.reshape(-1)[m]); masked_f.append(b.reshape(-1)[m])
         cls_out, fn_out = ("ok", masked_c), ("ok", masked_f)
     if not same_obs(cls_out, fn_out, spec.tol, shape=False):
-        return (f"C03|{spec.name}|class-differs-from-functional",
+        return (f"C03|{spec.name}{finding_class(spec, cfg)}|class-differs-from-functional",
                 f"{spec.name}{public_cfg(cfg)}: class gives {obs_json(cls_out)}, functional on the concatenation gives {obs_json(fn_out)}",
                 {"class": spec.name, "cfg": public_cfg(cfg), "batches": [b.describe() for b in bs],
                  "class_result": obs_json(cls_out), "functional_result": obs_json(fn_out)})
